@@ -68,6 +68,10 @@ PROPS["C11"] = {"units": ["nav"], "kani": [], "replay": [], "title": "Code-map o
     "design_ref": "DESIGN.md §6.5"}
 PROPS["C20"]["units"] = ["nav"]
 
+PROPS["C04"]["units"] = ["print", "roundtrip"]
+PROPS["C04"]["level_text"] = "String level, unbounded: string_literal emits lit(s) for every string (proved of the real code, unit print); SmallString::parse_in decodes per str_run (proved of the real code, unit parse); lemma_escape_roundtrip (unit roundtrip, pure specification lemma over the two shared vocabularies) proves str_outcome(lit(s)) == Done(|lit(s)|, s) for every string, every option record and every assignment of byte lengths. Container level: the generic emitters are proved to write only the documented separators and whitespace."
+PROPS["C04"]["level_note"] = _PRINT_NOTE + " Value-level round trip (containers, numbers) rests on the bounded stand-in."
+
 # bounded stand-ins (replay crate) run for every claimed property: they cover what is outside the
 # verifier's reach and supply failing inputs for VIOLATION lines
 for _pid in list(PROPS):
